@@ -307,6 +307,14 @@ def _isinst(it, x, c):
 
 
 def b_hasattr(it, o, name):
+    if name == '__len__':
+        I = _interp_types()
+        if isinstance(o, (list, tuple, dict, str, set, I.SymList)):
+            return True
+        if is_arr(o):
+            return o.ndim > 0 or True       # ndarray defines __len__ (calling it on a 0-d array raises)
+        if V.is_scalar(o) or o is None:
+            return False
     try:
         it.getattr(o, name)
         return True
@@ -633,6 +641,19 @@ def value_attr(it, o, attr):
         if attr == 'is_integer':
             return B(lambda: V.cmp('==', V.floor(o), o))
         raise PyExc('AttributeError', f'scalar has no attribute {attr}')
+    if isinstance(o, I.Builtin) and o.name in ('np.maximum', 'np.minimum') and attr == 'reduce':
+        from . import nplib
+        fn2 = nplib.NP[('np', o.name[3:])]
+
+        def red(itp, seq, axis=0, **k):
+            items = itp.iterate(seq)
+            if axis != 0 or not items:
+                raise Unsupported('ufunc.reduce form')
+            acc = items[0]
+            for x in items[1:]:
+                acc = fn2(itp, acc, x)
+            return acc
+        return I.Builtin(o.name + '.reduce', red, wants_interp=True)
     if isinstance(o, I.Builtin) and o.name == 'np.add' and attr == 'at':
         from . import nplib
         return I.Builtin('np.add.at', nplib.np_add_at, wants_interp=True)
